@@ -8,15 +8,15 @@ type PropertySpec struct {
 	// "byz"); the batch is split between them by weight. Empty = one profile "".
 	Profiles []ProfileSpec
 	// Runs / wall budget per tier. The batch stops at whichever comes first.
-	QuickRuns, ThoroughRuns     int
-	QuickBudgetS, ThoroughBudgetS int
-	Rule            string   // how cases are generated and what makes one non-trivial/distinct
-	EssentialProbes []string // must be > 0 in a thorough run, else exit 2 (toothless check)
-	QuickProbes     []string // must be > 0 even in a quick run
-	CrashIsViolation bool    // a reproducible panic/crash of the worker inside goloop code violates the property
-	Assumptions     []string
-	Real, Stubbed   []string
-	DesignRef       string
+	QuickRuns, ThoroughRuns         int
+	QuickBudgetS, ThoroughBudgetS   int
+	Rule                            string   // how cases are generated and what makes one non-trivial/distinct
+	EssentialProbes                 []string // must be > 0 in a thorough run, else exit 2 (toothless check)
+	QuickProbes                     []string // must be > 0 even in a quick run
+	CrashIsViolation                bool     // a reproducible panic/crash of the worker inside goloop code violates the property
+	Assumptions                     []string
+	Real, Stubbed                   []string
+	DesignRef                       string
 	LevelText, LevelNote, Technique string
 }
 
